@@ -81,6 +81,7 @@ type Op struct {
 	Flags  []string    `json:"flags,omitempty"`
 	Name   string      `json:"name,omitempty"`
 	Tasks  [][]Op      `json:"tasks,omitempty"` // C19: task scripts
+	Base   []string    `json:"base,omitempty"`  // caller-supplied base symbol table (WithSymbols / Unmarshaler.Symbols)
 }
 
 func (o *Op) Has(flag string) bool {
